@@ -224,7 +224,7 @@ func vShapeFive(name string) *networkv1.NetworkPolicy {
 	return vShape(name, []int{2, 3, 4, 7, 8}[nondetChoice(5)])
 }
 
-// BOUND: cluster state before: policy np-a absent or one of the shapes (quick: 5 of the 9 shapes, thorough: all 9), policy np-b absent or present (quick: one shape, thorough: 3), db pod present / absent / without address, web2 present (thorough: or absent), fully synchronised, plus foreign state (an ipset with a member, a chain with a rule, two rules in FORWARD); cluster state after: likewise with web2 present or absent (same policy names, so policies are kept, changed, removed or added); the db pod may have gone away or been re-created (no address yet / another address), with its delete event delivered or missed (galaxy down); one full synchronisation (the order of PolicyManager.Run), compared with the synchronisation of the final state on an empty node; then synchronised again
+// BOUND: cluster state before: policy np-a absent or one of the shapes (quick: 5 of the 9 shapes, thorough: all 9), policy np-b absent or present (quick: one shape, thorough: 3), db pod present / absent / without address, web2 present (thorough: or absent), fully synchronised, plus foreign state (an ipset with a member, a chain with a rule, two rules in FORWARD); cluster state after: likewise with web2 present or absent (same policy names, so policies are kept, changed, removed or added); the db pod may have gone away, been re-created (no address yet / another address) or lost its address (evicted), with its delete / update event delivered or missed (galaxy down); one full synchronisation (the order of PolicyManager.Run), compared with the synchronisation of the final state on an empty node; then synchronised again
 func VerifC15_q_syncConverges() {
 	w, st, ss := vNewStrictWorld()
 	h := &vC15{w: w, st: st, ss: ss}
@@ -263,10 +263,22 @@ func VerifC15_q_syncConverges() {
 	// (no event)
 	missed := nondetBool()
 	h.vanished = missed && before.db == 1 && after.db != 1
+	// a pod that had an address and has none now is either a re-created pod (delete event) or the same pod that lost
+	// its address (evicted: an update event)
+	evicted := before.db == 1 && after.db == 2 && nondetBool()
 	gone := w.c.pods
 	w.setState(after)
 	for _, p := range gone {
-		if p.Name == "db" && (before.db == 1 && after.db != 1 || after.db == 0) && !missed {
+		if p.Name != "db" || missed {
+			continue
+		}
+		if evicted {
+			for _, q := range w.c.pods {
+				if q.Name == "db" {
+					_ = w.pm.UpdatePod(p, q)
+				}
+			}
+		} else if before.db == 1 && after.db != 1 || after.db == 0 {
 			_ = w.pm.DeletePod(p)
 		}
 	}
